@@ -242,7 +242,7 @@ def validate_trace(trace, outdir, tag, timeout=3600):
     rc, out = run_tlc("TraceHL.tla", os.path.join(SPEC, "TraceHL.cfg"), outdir, "tv-" + tag, workers=1,
                       xmx="3g", timeout=timeout, env_extra={"TRACE": trace},
                       java_opts="-Xss1g -XX:ParallelGCThreads=2 -Dtlc2.tool.queue.IStateQueue=StateDeque")
-    res = dict(viol=[], drift=[], lines=0, execs=0, conform=0, ok=False, out=out, hits={})
+    res = dict(viol=[], drift=[], lines=0, execs=0, conform=0, ok=False, out=out, hits={}, ndrift=0)
     with open(out, errors="replace") as f:
         txt = f.read()
     for line in txt.splitlines():
@@ -253,6 +253,9 @@ def validate_trace(trace, outdir, tag, timeout=3600):
         m = DRIFT_RE.match(line)
         if m:
             res["drift"].append((int(m.group(1)), int(m.group(2))))
+            continue
+        if line.startswith('<<"NDRIFT", '):
+            res["ndrift"] = int(line.split(",")[1].strip(" >"))
             continue
         m = HITS_RE.match(line)
         if m:
@@ -286,13 +289,14 @@ def replay_and_validate(scen, runs, outdir, tag, shard_runs=1500):
 
     with ThreadPoolExecutor(max_workers=max(1, NCPU - 2)) as ex:
         parts = list(ex.map(one, range(len(shards))))
-    agg = dict(runs=0, events=0, followed=0, execs=0, conform=0, viol=[], drift=[], traces=[], hits={})
+    agg = dict(runs=0, events=0, followed=0, execs=0, conform=0, viol=[], drift=[], traces=[], hits={}, ndrift=0)
     for i, (h, v, tr) in enumerate(parts):
         agg["runs"] += h["runs"]
         agg["events"] += h["events"]
         agg["followed"] += h["followed_exactly"]
         agg["execs"] += v["execs"]
         agg["conform"] += v["conform"]
+        agg["ndrift"] += v["ndrift"]
         agg["traces"].append(tr)
         for p, (a, b) in v["hits"].items():
             o = agg["hits"].get(p, (0, 0))
